@@ -1,5 +1,6 @@
 import HttpcoreModel.Drv.Common
 import HttpcoreModel.H1Write
+import HttpcoreModel.H1Parse
 import HttpcoreModel.Url
 namespace Httpcore.Drv
 open Httpcore Httpcore.H1W
@@ -16,6 +17,18 @@ def h1write (args : List String) : String :=
       let r := writeRequest { method := m, target := t, headers := hs } cs
       s!"written={hexOfBytes r.1} err={showWErr r.2}"
     | _, _, _, _ => "bad-args"
+  | _ => "bad-args"
+
+/-- `h1parse <bytes>`: the request head a server reads from these bytes -/
+def h1parse (args : List String) : String :=
+  match args with
+  | [b] =>
+    match bytesOfHex b with
+    | some bs =>
+      match H1P.parseRequestHead bs with
+      | some p => s!"method={hexOfBytes p.method} target={hexOfBytes p.target} headers={showHeaders p.headers} restlen={p.rest.length}"
+      | none => "none"
+    | none => "bad-args"
   | _ => "bad-args"
 
 /-- `h2hdrs <method> <scheme> <target> <headers>` -/
